@@ -18,3 +18,17 @@ Definition required_keys : list (string * list string) :=
    ("AnalyserMod", ["portfolio_daily_returns"; "benchmark_daily_returns"; "benchmark_dates"; "total_portfolios"; "sub_accounts"; "positions"; "trades"; "daily_pnl"])].
 (* get_state of these classes writes a plain record: no entry is filtered out by a condition *)
 Definition unfiltered_classes : list string := ["Position"; "StockPosition"; "Account"; "Portfolio"; "Executor"].
+
+(* field-level round trip: get_state reads the value of key k from the attribute self.A and set_state stores state[k] back into the SAME
+   attribute (a key written from a derived view - e.g. the public start_date, which is the current run's - would restore something else) *)
+Fixpoint assoc (k : string) (t : list (string * string)) : option string :=
+  match t with [] => None | (a, b) :: r => if String.eqb a k then Some b else assoc k r end.
+Fixpoint fields_of (c : string) (t : list (string * list (string * string))) : list (string * string) :=
+  match t with [] => [] | (k, v) :: r => if String.eqb k c then v else fields_of c r end.
+Definition same_field (c k : string) (w r : list (string * list (string * string))) : bool :=
+  match assoc k (fields_of c w), assoc k (fields_of c r) with Some a, Some b => String.eqb a b | _, _ => false end.
+Definition round_trip_fields : list (string * list string) :=
+  [("Position", ["old_quantity"; "logical_old_quantity"; "quantity"; "avg_price"; "trade_cost"; "transaction_cost"; "last_price"; "prev_close"]);
+   ("Account", ["frozen_cash"; "total_cash"; "cash_liabilities"; "management_fees"]);
+   ("Portfolio", ["static_unit_net_value"; "units"; "start_date"]);
+   ("Executor", ["last_before_trading"; "last_settlement"])].
